@@ -50,6 +50,22 @@ func sameFunc(a, b *ssa.Function) bool {
 	if a == b {
 		return true
 	}
+	if a == nil || b == nil {
+		return false
+	}
+	// calling a forwarder is calling what it forwards to (an.Follow) — not the other way round: a call
+	// of the target is not a call of a helper that forwards to it with some arguments fixed
+	if origEq(a, b) {
+		return true
+	}
+	a = an.Follow(a)
+	return origEq(a, b)
+}
+
+func origEq(a, b *ssa.Function) bool {
+	if a == b {
+		return true
+	}
 	oa, ob := a, b
 	if o := a.Origin(); o != nil {
 		oa = o
@@ -322,4 +338,15 @@ func nilEventCond(cd an.Cond) bool {
 		x, y = y, x
 	}
 	return an.IsNilConst(y) && typeNameOf(x.Type()) == "Event" && strings.HasSuffix(an.PathOf(x), ".Event")
+}
+
+// callRecv: the receiver of a method call, whether called directly or through an interface.
+func callRecv(cc *ssa.CallCommon) ssa.Value {
+	if cc.IsInvoke() {
+		return cc.Value
+	}
+	if len(cc.Args) > 0 {
+		return cc.Args[0]
+	}
+	return nil
 }
